@@ -120,7 +120,7 @@ func init() {
 		Explanation: "Decided (structural clauses): T4 for every proxy of the precompiled import tables (all packages, all GOOS/GOARCH-tagged tables in the thorough tier): the proxy struct starts with Object interface{}, *P implements the compiled interface, every method has a field M_ of the method's signature with the object prepended, the method body is exactly `return P.M_(P.Object, params...)` with the parameters in order, and the fields after Object are the interface's methods in sorted order — the order in which Comp.converterToProxy fills them (field i+1 := method i); " +
 			"Y1 converterToProxy binds every method 0..NumMethod()-1 of the compiled interface to the interpreted method of the same name and package path, stores it in field i+1, and each conversion allocates a new proxy, copies the table and stores the object in field 0; " +
 			"X3 (shared with C33) a call entering the interpreter on a foreign goroutine gets its own run-time record: newEnv4Func's goroutine-id test dominates every use of the frame pool; N1/M1 (shared with C06) the function wrappers handed to compiled code (reflect.MakeFunc and the kind-specialised families) obtain and release their frames in pairs and mark captured frames. " +
-			"Not decided: behaviour of interpreted functions inside compiled callers, conversion of argument and result values.",
+			"M8 every run-time closure that adjusts a method receiver found through embedded fields tests both flags of the exclusive pair (address-of, dereference); Z2 the argument vectors of the call families pick each argument closure once. Not decided: behaviour of interpreted functions inside compiled callers, conversion of argument and result values.",
 		Assumptions: []string{"reflect.Type.Method(i) enumerates interface methods sorted by name", "reflect.MakeFunc"},
 		Rules: []func(*Ctx){func(c *Ctx) {
 			// only the proxy obligations of the import-table analysis belong to this property
@@ -144,12 +144,16 @@ func init() {
 			ruleGoidGate(c, "X3-goid-gate")
 			ruleNewFreePairing(c, "fast", "N1-new-free")
 			ruleMarkBeforeEscape(c, "fast", "M1-mark-before-escape")
+			ruleDistinctPickedElements(c, "Z2-distinct-picked-closures", "fast")
+			ruleReceiverAdjustmentPairs(c, "M8-receiver-adjustment-pairs")
 			c.Floor("T4-proxy-forward", 300)
 			c.Floor("T4-proxy-order", 100)
 		}},
 		ThoroughConfigs: []string{"linux/386", "darwin/amd64", "linux/arm64", "freebsd/amd64", "windows/386"},
 		Technique:       "AST/type-resolved custom analysis: table agreement of generated proxy structs with the interfaces they implement (go/types), positional agreement between proxy fields and the converter, dominance of the goroutine-id gate, pairing of frame acquisition and release",
 		Mutants: []Mutant{
+			{Name: "promoted-method-receiver-not-dereferenced", File: "fast/selector.go", Old: "\t\t\t\tif addressof {\n\t\t\t\t\targs[0] = args[0].Addr()\n\t\t\t\t} else if deref {\n\t\t\t\t\targs[0] = args[0].Elem()\n\t\t\t\t}\n\t\t\t\t// retrieve the function as soon as possible (early bind)", New: "\t\t\t\tif addressof {\n\t\t\t\t\targs[0] = args[0].Addr()\n\t\t\t\t}\n\t\t\t\t// retrieve the function as soon as possible (early bind)", Nth: 3},
+			{Name: "two-argument-call-evaluates-first-twice", File: "fast/call2ret1.go", Old: "\t\t\t\targfuns[0](env),\n\t\t\t\targfuns[1](env),\n\t\t\t}\n\t\t\tret0 := callxr(funv, argv)[0]\n\t\t\treturn float32(ret0.Float())", New: "\t\t\t\targfuns[0](env),\n\t\t\t\targfuns[0](env),\n\t\t\t}\n\t\t\tret0 := callxr(funv, argv)[0]\n\t\t\treturn float32(ret0.Float())"},
 			{Name: "proxy-fields-reordered", File: "imports/io.go", Old: "\tObject\tinterface{}\n\tClose_\tfunc(interface{}) error\n\tRead_\tfunc(_proxy_obj_ interface{}, p []byte) (n int, err error)\n}", New: "\tObject\tinterface{}\n\tRead_\tfunc(_proxy_obj_ interface{}, p []byte) (n int, err error)\n\tClose_\tfunc(interface{}) error\n}", Canary: true},
 			{Name: "proxy-filled-from-field-zero", File: "fast/interface.go", Old: "setProxyField(vtable.Field(i+1), xr.ValueOf(e.Value))", New: "setProxyField(vtable.Field(i), xr.ValueOf(e.Value))", Canary: true},
 			{Name: "proxy-method-looked-up-by-index-name", File: "fast/interface.go", Old: "mtdin, count := tsrc.MethodByName(mtdout.Name, mtdout.PkgPath)", New: "mtdin, count := tsrc.MethodByName(rtout.Method(0).Name, mtdout.PkgPath)"},
